@@ -1,0 +1,97 @@
+//go:build verif
+
+package proxy
+
+// Verification export hooks for property C18 (keep-alive replies) — /verif/harness/cmd/c18.
+// Add-only, no logic: a player and server connections over caller-supplied (recording)
+// connections, and forwarders to the unexported keep-alive entry points.
+// Compiled only with `-tags verif`.
+
+import (
+	"net"
+
+	"github.com/go-logr/logr"
+
+	"go.minekube.com/gate/pkg/edition/java/netmc"
+	"go.minekube.com/gate/pkg/edition/java/proto/packet"
+	"go.minekube.com/gate/pkg/gate/proto"
+)
+
+// VerifC18Env is one connectedPlayer over the caller's client connection.
+type VerifC18Env struct{ player *connectedPlayer }
+
+// VerifC18Server is one serverConnection of that player.
+type VerifC18Server struct{ sc *serverConnection }
+
+func VerifC18NewEnv(client netmc.MinecraftConn) *VerifC18Env {
+	return &VerifC18Env{player: &connectedPlayer{MinecraftConn: client, log: logr.Discard()}}
+}
+
+// NewServer = newServerConnection; backend may be nil (serverConn.conn() == nil).
+func (e *VerifC18Env) NewServer(name string, backend netmc.MinecraftConn) *VerifC18Server {
+	server := newRegisteredServer(NewServerInfo(name, &net.TCPAddr{IP: net.IPv4(127, 0, 0, 1), Port: 25565}))
+	sc := newServerConnection(server, nil, e.player)
+	sc.connection = backend
+	return &VerifC18Server{sc: sc}
+}
+
+// SetConn replaces serverConnection.connection (nil = not connected).
+func (s *VerifC18Server) SetConn(backend netmc.MinecraftConn) {
+	s.sc.mu.Lock()
+	s.sc.connection = backend
+	s.sc.mu.Unlock()
+}
+
+// SetConnected sets player.connectedServer_ (nil allowed).
+func (e *VerifC18Env) SetConnected(s *VerifC18Server) {
+	e.player.mu.Lock()
+	defer e.player.mu.Unlock()
+	if s == nil {
+		e.player.connectedServer_ = nil
+		return
+	}
+	e.player.connectedServer_ = s.sc
+}
+
+// SetInFlight sets player.connInFlight (nil allowed).
+func (e *VerifC18Env) SetInFlight(s *VerifC18Server) {
+	e.player.mu.Lock()
+	defer e.player.mu.Unlock()
+	if s == nil {
+		e.player.connInFlight = nil
+		return
+	}
+	e.player.connInFlight = s.sc
+}
+
+// BackendKeepAlive delivers a backend keep-alive: via 0 = recordBackendKeepAlive,
+// 1 = backendTransitionSessionHandler.handleKeepAlive, 2 = backendConfigSessionHandler.handleKeepAlive,
+// 3 = backendPlaySessionHandler.handleKeepAlive.
+func (s *VerifC18Server) BackendKeepAlive(id int64, via int) {
+	p := &packet.KeepAlive{RandomID: id}
+	switch via {
+	case 1:
+		(&backendTransitionSessionHandler{serverConn: s.sc}).handleKeepAlive(p)
+	case 2:
+		(&backendConfigSessionHandler{serverConn: s.sc}).handleKeepAlive(p)
+	case 3:
+		(&backendPlaySessionHandler{serverConn: s.sc}).handleKeepAlive(p, &proto.PacketContext{Packet: p})
+	default:
+		recordBackendKeepAlive(s.sc, p)
+	}
+}
+
+// ClientReply delivers a client keep-alive: via 0 = forwardKeepAlive,
+// 1 = clientPlaySessionHandler.HandlePacket, 2 = clientConfigSessionHandler.HandlePacket.
+func (e *VerifC18Env) ClientReply(id int64, via int) {
+	p := &packet.KeepAlive{RandomID: id}
+	switch via {
+	case 1:
+		(&clientPlaySessionHandler{player: e.player, log: logr.Discard(), log1: logr.Discard()}).
+			HandlePacket(&proto.PacketContext{Packet: p})
+	case 2:
+		newClientConfigSessionHandler(e.player).HandlePacket(&proto.PacketContext{Packet: p})
+	default:
+		forwardKeepAlive(p, e.player)
+	}
+}
